@@ -121,13 +121,18 @@ impl Ctx {
 
 /// A proptest runner whose only source of randomness is the given seed.
 pub fn runner(seed: u64, cases: u32) -> proptest::test_runner::TestRunner {
+    runner_shrink(seed, cases, 4096)
+}
+
+/// For stages whose failing cases are expensive to re-run (super-linear cost is the failure): few shrink steps.
+pub fn runner_shrink(seed: u64, cases: u32, max_shrink_iters: u32) -> proptest::test_runner::TestRunner {
     use proptest::test_runner::{Config, RngAlgorithm, RngSeed, TestRunner};
     let mut cfg = Config::default();
     cfg.cases = cases;
     cfg.failure_persistence = None;
     cfg.rng_algorithm = RngAlgorithm::ChaCha;
     cfg.rng_seed = RngSeed::Fixed(seed);
-    cfg.max_shrink_iters = 4096;
+    cfg.max_shrink_iters = max_shrink_iters;
     cfg.max_global_rejects = 65536;
     cfg.verbose = 0;
     TestRunner::new(cfg)
